@@ -125,9 +125,28 @@ Definition carried_cred (st : server) (q : certreq) : cred :=
             end
   end.
 
+(* `tlsAuthUser != ""`, `authData.Username != ""`: a client certificate whose common name is the empty
+   string is no identity.  getUsernameIfKeymasterSigned's answer is dropped; getUsernameIfIPRestricted
+   still runs on it - its user error is the 403, its internal error the 500 - and when it accepts the
+   certificate (peer inside a block, "" configured as automation user, not revoked) the empty name is
+   not returned either: the request goes on to the cookie code as if it had no certificate. *)
+Definition without_km (c : tlsinfo) : tlsinfo :=
+  {| c_chain2 := c_chain2 c; c_issuer := c_issuer c; c_issuer_key_trusted := false;
+     c_cn := c_cn c; c_denied := c_denied c; c_not_before := c_not_before c; c_ip_error := c_ip_error c;
+     c_ip_valid := c_ip_valid c; c_automation := c_automation c; c_revoked := c_revoked c |}.
+Definition effective_tls (st : server) (q : certreq) : option tlsinfo :=
+  match q_tls q with
+  | Some c =>
+      match s_name st (c_cn c) with
+      | [] => match ip_restricted c with IpOk => None | _ => Some (without_km c) end
+      | _ :: _ => Some c
+      end
+  | None => None
+  end.
+
 Definition auth_request (st : server) (q : certreq) : request :=
   {| r_get := match q_method q with HGet => true | _ => false end;
-     r_origin := q_origin q; r_tls := q_tls q; r_cred := carried_cred st q |}.
+     r_origin := q_origin q; r_tls := effective_tls st q; r_cred := carried_cred st q |}.
 
 Definition s_sealed (st : server) : bool := negb (Seal.is_some (Seal.signer (s_keys st))).   (* state.Signer == nil *)
 Definition s_ed25519_ca (st : server) : bool := Seal.is_some (Seal.ed (s_keys st)).          (* state.Ed25519Signer != nil *)
@@ -332,6 +351,11 @@ Definition on_conn (q : certreq) (blocks : option (list (N * N))) (cn : conn) : 
 Definition with_creds (q : certreq) (ck : option wtoken) (b : option basic) : certreq :=
   {| q_method := q_method q; q_origin := q_origin q; q_tls := q_tls q;
      q_cookie := ck; q_basic := b; q_target := q_target q; q_type := q_type q; q_form_ok := q_form_ok q;
+     q_key := q_key q; q_add_groups := q_add_groups q |}.
+
+Definition without_tls (q : certreq) : certreq :=
+  {| q_method := q_method q; q_origin := q_origin q; q_tls := None;
+     q_cookie := q_cookie q; q_basic := q_basic q; q_target := q_target q; q_type := q_type q; q_form_ok := q_form_ok q;
      q_key := q_key q; q_add_groups := q_add_groups q |}.
 
 (* ---- user-name normalisation (app.go reprocessUsername) and the two places that mint a
